@@ -99,6 +99,15 @@ chk('C14', 'TLA+ token-level grammar of message text with a total Parse and the 
     'Relations over real objects are evaluated by the driver; MidiFile compared structurally; duplicated attributes not generated.',
     'DESIGN.md 5/C14')
 
+chk('C19', 'TLA+ model of SYX write/read through the Tokenizer (SyxFile) enumerated by TLC over message lists x formats x whitespace layouts x malformed-text classes; every case written/read with the real functions; random large lists validated by TLC (SyxTrace)',
+    'TLC enumerates every list of <= 3 (thorough 4) messages from a pool of sysex (payload 0, 1, 2 bytes), note_on, clock and songpos in binary format and in text format under 9 whitespace layouts (space, newline, tab, CRLF, double space, form feed, none, mixed incl. vertical tab and leading blanks, lower case), binary files with foreign messages between the sysex ones, and 6 malformed-text classes, checking Read(Write(l)) = SysexOnly(l), NoSysexGivesEmpty, ForeignDropped, BinaryDetected; each case is executed with write_syx_file / read_syx_file on real files (binary content compared byte for byte; malformed text must raise ValueError). 40 (thorough 150) random lists of up to 20 messages with payloads up to 5000 bytes are written and read by the real code in both formats and validated by TLC.',
+    'Foreign binary files start with a sysex message (format detection).',
+    'DESIGN.md 5/C19')
+chk('C20', 'TLA+ precedence function over the full configuration grid (BackendSel) enumerated by TLC with consistency invariants; every cell executed against recording fake backend modules served by a meta-path finder with os.environ patched',
+    'TLC enumerates all 41 472 cells (explicit name absent / plain / with API suffix x api keyword x MIDO_BACKEND unset / plain / with suffix x MIDO_DEFAULT_INPUT/OUTPUT/IOPORT set or not x use_environ x load x native IOPort x get_devices x 6 calls x port name given x api in the call), checks 8 consistency invariants of the precedence function (explicit beats environment beats default; keyword api beats suffix; api reaches every constructor; explicit port name beats environment; no environment without use_environ; Input/Output pairing) and emits the expected module, import moment, constructor calls, listing and query api; every cell is executed for real: which fake module was imported and when, every constructor call with name and api, the IOPort wrapper, name listings in device order, api passed to get_devices. set_backend rebinding of the top-level functions is a driver-level sequence.',
+    'Whether use_environ=False disables MIDO_BACKEND is left open (both accepted).',
+    'DESIGN.md 5/C20')
+
 
 def build(not_applicable):
     checks = []
